@@ -221,6 +221,11 @@ RecordFails(r, cfgs, metas, gs, xs, usedK, pm, pre, post) ==
             /\ \A n \in T : post[n] = NoStats(pre[n])
             /\ \A n \in DOMAIN post \ T : post[n] = pre[n]
          THEN {} ELSE {"C15"}
+    \* C20: a poll that leaves the call suspended, and dropping a suspended call, touch no cache and
+    \* leave no lock held
+    [] r.ev \in {"pend", "drop"} ->
+         IF post = pre /\ ("locksFree" \in DOMAIN r => r.locksFree) THEN {} ELSE {"C20"}
+    [] r.ev = "hang" -> {"C20"}
     [] OTHER -> {}
 
 \* ghost / bookkeeping updates driven by the record
